@@ -79,7 +79,8 @@ def shrink(c):
 
 
 # ---- command-line glue: a multi-alignment Phylip input must be treated as its alignments one by one (`detmulti`) ----
-MULTI_CMDS = [['mask', '-s', '1', '-l', '2'], ['mask', '-s', '0', '-l', '3', '--replace', 'MAJ'], ['mask', '--unique'], ['mask', '--ref-seq', 'ref', '-s', '0', '-l', '2'], ['mask', '--unique', '--ref-seq', 'ref', '--replace', 'MAJ']]
+MULTI_CMDS = [['mask', '-s', '1', '-l', '2'], ['mask', '-s', '0', '-l', '3', '--replace', 'MAJ'], ['mask', '--unique'], ['mask', '--ref-seq', 'ref', '-s', '0', '-l', '2'], ['mask', '--unique', '--ref-seq', 'ref', '--replace', 'MAJ'],
+              ['mask', '--pos', '0,2'], ['mask', '--unique', '--at-most', '2'], ['mask', '-s', '0', '-l', '3', '--no-gaps'], ['mask', '--ref-seq', 'ref', '-s', '0', '-l', '3', '--no-ref'], ['mask', '-s', '1', '-l', '2', '--replace', 'GAP']]
 
 
 def _gen_large(rng, tier):
